@@ -24,7 +24,7 @@ def judge(rec, price, ops):
         ideal = lvl.kv(dm["ideal"].replace(";", " "))
         if ideal.get("nofuel"):
             continue
-        if tx_core(di["txs"]) != tx_core(ideal["txs"]) or di["filled"] != ideal["filled"] or di["rem"] != ideal["rem"]:
+        if tx_core(di["txs"]) != tx_core(ideal["txs"]):      # makers, in sequence, with their quantities
             return [(o["i"], "match trades %s, time priority demands %s (taint=%s pre=%s)" % (
                 di["txs"], ideal["txs"], dm.get("taint"), dm.get("pre")))]
     return []
@@ -40,7 +40,7 @@ def classify(rec, price, ops, i, text):
             di = lvl.kv(o["I"].split(" || ")[0])
             if "txs" not in di or "txs" not in dm:
                 return None
-            if tx_core(di["txs"]) == tx_core(dm["txs"]) and di["filled"] == dm["filled"] and di["rem"] == dm["rem"]:
+            if tx_core(di["txs"]) == tx_core(dm["txs"]):
                 first = dm.get("taint", "-").split(",")[0]
                 if first == "-":
                     first = "K1"
